@@ -8,8 +8,3 @@ Import ListNotations.
 Theorem C06_set_sites_neutral : forallb (fun x => neutral (site_use x)) set_sites = true.
 Proof. vm_compute. reflexivity. Qed.
 Print Assumptions C06_set_sites_neutral.
-
-(* id( / time. / random / secrets / uuid / os.listdir ... never flow into a result *)
-Theorem C06_nd_sites_no_result_sink : forallb (fun x : nd_site => sink_ok (snd x)) nd_sites = true.
-Proof. vm_compute. reflexivity. Qed.
-Print Assumptions C06_nd_sites_no_result_sink.
